@@ -598,7 +598,7 @@ func c27Retype(k *c27Contract, t *c27T, rng *rand.Rand) *c27T {
 					same = append(same, o)
 				}
 			}
-			if len(same) > 0 && d.Kind == "enum" {
+			if len(same) > 0 {
 				return &c27T{K: "named", Name: same[rng.IntN(len(same))].Name}
 			}
 		}
@@ -647,6 +647,46 @@ var c27Mutations = []c27Mutation{
 			return false
 		}
 		(*fs)[i].Type = nt
+		return true
+	}},
+	{"field-retype-nominal-sibling", func(k *c27Contract, rng *rand.Rand) bool {
+		// S0 -> S1 (another declaration of the same kind), at any depth of the field type
+		type site struct {
+			t    *c27T
+			sibs []*c27Decl
+		}
+		var sites []site
+		var walk func(t *c27T)
+		walk = func(t *c27T) {
+			if t == nil {
+				return
+			}
+			if t.K == "named" {
+				if d := k.decl(t.Name); d != nil {
+					var same []*c27Decl
+					for _, o := range k.Decls {
+						if o.Kind == d.Kind && o.Name != d.Name {
+							same = append(same, o)
+						}
+					}
+					if len(same) > 0 {
+						sites = append(sites, site{t, same})
+					}
+				}
+				return
+			}
+			if t.K == "array" || t.K == "fixed" || t.K == "dict" || t.K == "opt" {
+				walk(t.Elem)
+			}
+		}
+		for _, f := range c27AllFields(k) {
+			walk(f.Type)
+		}
+		if len(sites) == 0 {
+			return false
+		}
+		st := sites[rng.IntN(len(sites))]
+		st.t.Name = st.sibs[rng.IntN(len(st.sibs))].Name
 		return true
 	}},
 	{"field-unwrap-optional", func(k *c27Contract, rng *rand.Rand) bool {
@@ -1139,6 +1179,8 @@ type c27Pair struct {
 
 func c27GenPair(rng *rand.Rand) c27Pair {
 	a := c27Gen(rng)
+	// a quarter of the pairs spell nominal types in qualified form (K.S0) in BOTH versions
+	a.Qualify = rng.IntN(4) == 0
 	b := a.clone()
 	var kinds []string
 	n := 1
@@ -1287,7 +1329,7 @@ func init() {
 	core.Register(&core.Prop{
 		ID: "C27",
 		Rule: "each case generates (A, B) pairs: A = random contract K with 1-2 struct and resource interfaces, 1-2 enums (2-4 cases), 3-4 structs and 2-3 resources whose fields draw from primitives, enums, nested structs/resources, interface-typed ({I}), AnyStruct/AnyResource, arrays, constant-sized arrays, dictionaries and optionals, plus contract fields; " +
-			fmt.Sprintf("B = A with 1-2 of %d mutation kinds (", len(c27Mutations)) + "field add/remove/retype/optional wrap/unwrap/array size/reorder/rename/let-var/access, declaration add/remove/remove-with-#removedType/rename, conformance add/remove/reorder, enum case append/insert/remove/reorder/rename, struct<->resource kind change, #removedType pragma add/remove, body change, function add, qualified type names); " +
+			fmt.Sprintf("B = A with 1-2 of %d mutation kinds (", len(c27Mutations)) + "field add/remove/retype/retype to a sibling nominal type/optional wrap/unwrap/array size/reorder/rename/let-var/access, declaration add/remove/remove-with-#removedType/rename, conformance add/remove/reorder, enum case append/insert/remove/reorder/rename, struct<->resource kind change, #removedType pragma add/remove, body change, function add, qualified type names); " +
 			"per engine: deploy A, store the census, update to B; accepted updates are probed; distinct = (A source, B source)",
 		Assumptions: []string{
 			"oracle is end-to-end: only accepted updates are judged, by a probe script that reads the stored values through B's declarations (isInstance with the declared types, enum rawValue and case equality, isInstance of the interfaces recorded under A)",
